@@ -598,7 +598,8 @@ def walk_task(item):
     energies."""
     import torch
 
-    name, method, active, mode, bond, path, rot = item
+    name, method, active, mode, bond, path, rot = item[:7]
+    exc_method = item[7] if len(item) > 7 else "cis"
     base = M.apply(M.get(name), M.generic_rot(rot))
     a, b = bond
     u = base["coords"][b] - base["coords"][a]
@@ -619,7 +620,7 @@ def walk_task(item):
     def params(act):
         p = sp.make_params(method, eps=1e-10, force_mode=mode)
         if any(acts):
-            p["excited_states"] = {"n_states": 3, "method": "cis", "tolerance": 1e-9}
+            p["excited_states"] = {"n_states": 3, "method": exc_method, "tolerance": 1e-9}
             p["active_state"] = act
         return p
 
@@ -664,6 +665,10 @@ def walks(chk, tier, seed):
     for acts in itertools.product((0, 1, 2), repeat=3):
         if len(set(acts)) > 1:
             items.append(("H2CO", "AM1", acts, "analytical", (0, 1), (1.2, 1.25, 1.3), seed))
+    # RPA (X and Y amplitudes carried by the object), every active state, steps large enough to flip eigenvector phases
+    for act in (1, 2, 3):
+        items.append(("H2CO", "AM1", act, "analytical", (0, 1), (1.2, 1.35, 1.5), seed, "rpa"))
+        items.append(("H2CO", "PM3", act, "analytical", (0, 1), (1.22, 1.37, 1.27), seed, "rpa"))
     if tier != "quick":
         for acts in itertools.product((0, 1, 2), repeat=2):
             if len(set(acts)) > 1:
@@ -674,7 +679,7 @@ def walks(chk, tier, seed):
     items = list(dict.fromkeys(items))
     res = pmap(walk_task, items, chunk=1, timeout=1800, progress="C01 objects with a history")
     for it, r in zip(items, res):
-        key = f"walk|{it[0]}|{it[1]}|S{it[2]}|{it[3]}|path={it[5]}"
+        key = f"walk|{it[0]}|{it[1]}|S{it[2]}|{it[3]}|path={it[5]}" + (f"|{it[7]}" if len(it) > 7 else "")
         desc = dict(kind="history_walk", molecule=it[0], method=it[1], active_state=(it[2] if isinstance(it[2], int) else "".join(map(str, it[2]))), mode=it[3])
         if isinstance(r, dict) and ("__error__" in r or "__timeout__" in r):
             chk.violation(desc, f"{key}: {str(r)[:300]}", replay={"walk": list(it)})
